@@ -116,9 +116,12 @@ def sites():
     def groupby_str(Q, n): return str(Q.from_(t).select(fn.Count("*")).groupby(n))
     def select_str(Q, n): return str(Q.from_(t).select(n))
     def create_table(Q, n): return render(Q, Q.create_table(n).columns(Column("x", "INT")))
-    def create_column(Q, n): return render(Q, Q.create_table("t").columns(Column(n, "INT")))
+    def create_column(Q, n): return render(Q, Q.create_table("t").columns(shared(("C", n), lambda: Column(n, "INT"))))
+    def create_column_default(Q, n): return render(Q, Q.create_table("t").columns(shared(("Cd", n), lambda: Column(n, "INT", nullable=False, default=0))))
     def create_unique(Q, n): return render(Q, Q.create_table("t").columns(Column("x", "INT")).unique(n))
     def create_pk(Q, n): return render(Q, Q.create_table("t").columns(Column("x", "INT")).primary_key(n))
+    def create_pk_column(Q, n): return render(Q, Q.create_table("t").columns(Column("x", "INT")).primary_key(shared(("Cp", n), lambda: Column(n))))
+    def create_unique_column(Q, n): return render(Q, Q.create_table("t").columns(Column("x", "INT")).unique(shared(("Cu", n), lambda: Column(n))))
     def create_period(Q, n): return render(Q, Q.create_table("t").columns(Column("x", "INT")).period_for(n, "x", "x"))
     def create_period_col(Q, n): return render(Q, Q.create_table("t").columns(Column("x", "INT")).period_for("p", n, "x"))
     def drop_table(Q, n): return render(Q, Q.drop_table(n))
@@ -203,6 +206,8 @@ def engine_prepares(site, n, text):
 def names(tier, rnd):
     out = ["".join(p) for n in (1, 2) for p in itertools.product(ALPHABET, repeat=n)]
     out += KEYWORDS + ["My Col", 'a"b"c', "x``y", "a.b.c", "ü ñ", "tab\tname", "x'--", "a]b[c"]
+    # names that are SQL punctuation or syntax when left bare
+    out += ["*", "%", "?", "(", ")", ",", ";", "--", "/*", "*/", "=", "t.*", "$1", "%s", ":p", "@v", "#", "x y", "NULL", "1"]
     if tier != "quick":
         out += ["".join(p) for p in itertools.product(['"', "`", "a", ".", " ", "'"], repeat=3)]
     for _ in range(60 if tier == "quick" else 1500):
@@ -251,6 +256,8 @@ def run(tier: str) -> int:
                                 what="the site emits the name as a bare word (definition and reference written differently)")
                 continue
             for n in nm:
+                if n == "*" and sname in ("select_str", "returning"):
+                    continue  # select("*") / returning("*") mean "all columns" by contract, not a column called *
                 try:
                     text = f(Q, n)
                 except Exception as ex:
